@@ -725,6 +725,30 @@ fn valid_date(s: &str) -> bool {
     };
     d >= 1 && d <= dim
 }
+/// RFC 3339 full-time: hh:mm:ss[.f+](Z|z|+hh:mm|-hh:mm); a leap second (ss = 60) is in the grammar
+fn valid_time(s: &str) -> bool {
+    let b = s.as_bytes();
+    let two = |i: usize, max: u32| -> bool { i + 2 <= b.len() && b[i].is_ascii_digit() && b[i + 1].is_ascii_digit() && ((b[i] - b'0') as u32 * 10 + (b[i + 1] - b'0') as u32) <= max };
+    if b.len() < 9 || !two(0, 23) || b[2] != b':' || !two(3, 59) || b[5] != b':' || !two(6, 60) {
+        return false;
+    }
+    let mut i = 8;
+    if i < b.len() && b[i] == b'.' {
+        i += 1;
+        let st = i;
+        while i < b.len() && b[i].is_ascii_digit() {
+            i += 1;
+        }
+        if i == st {
+            return false;
+        }
+    }
+    match b.get(i) {
+        Some(b'Z') | Some(b'z') => i + 1 == b.len(),
+        Some(b'+') | Some(b'-') => b.len() == i + 6 && two(i + 1, 23) && b[i + 3] == b':' && two(i + 4, 59),
+        _ => false,
+    }
+}
 fn valid_uuid(s: &str) -> bool {
     let b = s.as_bytes();
     b.len() == 36 && b.iter().enumerate().all(|(i, c)| if [8, 13, 18, 23].contains(&i) { *c == b'-' } else { c.is_ascii_hexdigit() })
@@ -857,6 +881,17 @@ fn ext_valid(schema: &Value, root: &Value, v: &Value, depth: usize) -> Option<bo
         match o.get("format").and_then(|f| f.as_str()) {
             Some("date") => {
                 if !valid_date(s) {
+                    return Some(false);
+                }
+            }
+            Some("time") => {
+                if !valid_time(s) {
+                    return Some(false);
+                }
+            }
+            Some("date-time") => {
+                let b = s.as_bytes();
+                if b.len() < 11 || !s.is_char_boundary(10) || !s.is_char_boundary(11) || !(b[10] == b'T' || b[10] == b't') || !valid_date(&s[..10]) || !valid_time(&s[11..]) {
                     return Some(false);
                 }
             }
@@ -994,7 +1029,7 @@ fn gen_ext(rng: &mut Rng, depth: usize) -> Value {
                 }
             }
             2 => json!({"enum": ["red", "green", 3, null, [1, 2], {"a": 1}]}),
-            3 => json!({"type": "string", "format": *rng.pick(&["date", "uuid", "ipv4"])}),
+            3 => json!({"type": "string", "format": *rng.pick(&["date", "uuid", "ipv4", "time", "date-time"])}),
             4 if rng.chance(1, 2) => json!({"type": "string", "pattern": *rng.pick(&["^[a-c]+$", "^(ab|c)*$"]), "maxLength": rng.range(2, 6)}),
             4 => json!({"type": "string", "pattern": *rng.pick(&["^\\d{2,3}$", "^\\w+$", "^a\\/b$", "^a/b$", "^\\D$", "^\\d+\\.\\d$", "^\\W\\w$"]), "maxLength": rng.range(3, 6)}),
             5 => json!({"type": ["integer", "null"], "minimum": 0}),
